@@ -376,7 +376,15 @@ def run_case(case, ctx):
     sizes = {"build": n}
     nfill = 0
     applied = []
+    bystander = "literal" not in case and (case.get("seed") or [0])[-1] % 3 == 0
+    if bystander:
+        ctx.count("cases_with_a_second_partitioner_alive")
     for (Y, tid, reset) in fills:
+        if bystander:
+            # another partitioner object used in between (its own data, the same ids): the two must not share anything
+            other = KDQTreePartitioner(count_ubound=max(1, cub // 2), cutpoint_proportion_lbound=prop)
+            other.build(X[::-1] * 3.0 + 1.0)
+            other.fill(X * 0.5, tid, reset=True)
         applied.append({"data": Y.tolist() if Y.size <= 300 else "omitted", "id": tid, "reset": reset})
         fbase = dict(base, fills=applied)
         evals0 = getattr(P, "_verif_evals", 0)
